@@ -1,9 +1,14 @@
 import GenlmModel.Model.Json
 import GenlmModel.Model.Transform
 import GenlmModel.Model.Shape
+import GenlmModel.Model.Norm
+import GenlmModel.Model.Mask
 /-! Operation dispatch of the driver: one JSON object in, one JSON object out. -/
 namespace Genlm
 open Lean (Json)
+
+/-- a start symbol that no Python grammar of the harness uses -/
+def genNt0 (pre : String) : Sx := .s (pre ++ "@model")
 
 section
 variable {K : Type} [Wt K] [BEq K]
@@ -37,6 +42,47 @@ def opWn (j : Json) : E Json := do
   pure (Json.mkObj [("vals", .arr (xs.map fun x => Wt.toJson (t.get G.S x)).toArray),
                     ("half", .arr (xs.map fun x => Wt.toJson (h.get G.S x)).toArray),
                     ("n", .num ⟨used, 0⟩), ("stable", .bool stable), ("keys", .num ⟨keys.length, 0⟩)])
+
+/-- {"op":"zn","cfg":…,"n":N} → total weights `ZN G n X` of every head (and at n/2), early stop when stationary -/
+def opZnG (G : CFG Sx K) (j : Json) : E Json := do
+  let n ← getNat (← getField j "n")
+  let maxbits ← match j.getObjVal? "maxbits" with | .ok v => getNat v | _ => pure 4000
+  let rec half (fuel : Nat) (t : List (Sx × K)) : Option (List (Sx × K)) :=
+    match fuel with
+    | 0 => some t
+    | fuel + 1 =>
+      let t' := znStep G t
+      if t'.any (fun e => Wt.bits e.2 > maxbits) then none else half fuel t'
+  let some h := half (n / 2) [] | pure (Json.mkObj [("stable", .bool false), ("exploded", .bool true)])
+  let rec go (fuel : Nat) (t : List (Sx × K)) (used : Nat) : List (Sx × K) × Nat × Bool :=
+    match fuel with
+    | 0 => (t, used, false)
+    | fuel + 1 =>
+      let t' := znStep G t
+      if (t'.map (·.2)) == (t.map (·.2)) && t'.length == t.length then (t, used, true)
+      else if t'.any (fun e => Wt.bits e.2 > maxbits) then (t, used, false)
+      else go fuel t' (used + 1)
+  let (t, used, stable) := go (n - n / 2) h (n / 2)
+  let enc (z : List (Sx × K)) : Json := .arr (z.map fun e => Json.arr #[sxToJson e.1, Wt.toJson e.2]).toArray
+  pure (Json.mkObj [("vals", enc t), ("half", enc h), ("n", .num ⟨used, 0⟩), ("stable", .bool stable)])
+
+/-- {"op":"mask","cfg":G,"eos":e,"ctxs":[…]} → for every context the next-token set of `addEOS G`
+(`nextSet`, proved: exactly the tokens t with ctx++[t] a viable prefix) and whether ctx is a sentence of it -/
+def opMask (j : Json) : E Json := do
+  let G : CFG Sx K ← cfgOfJson (← getField j "cfg")
+  let ctxs ← (← getArr (← getField j "ctxs")).mapM sxList
+  let G' : CFG Sx K ← match j.getObjVal? "eos" with
+    | .ok e => do
+        let eos ← sxOfJson e
+        pure { (addEOS G (genNt0 "<START>") eos) with V := G.V ++ [eos] }
+    | _ => pure G
+  pure (Json.mkObj [("masks", .arr (ctxs.map fun c => Json.arr ((nextSet G' c).map sxToJson).toArray).toArray),
+                    ("viable", .arr (ctxs.map fun c => Json.bool (viable G' c)).toArray),
+                    ("sentence", .arr (ctxs.map fun c => Json.bool (derivesB G' c)).toArray)])
+
+def opZn (j : Json) : E Json := do
+  let G : CFG Sx K ← cfgOfJson (← getField j "cfg")
+  opZnG G j
 
 /-- Python `str(x)` for the names the library formats into `_gen_nt` prefixes -/
 def pyStr : Sx → String
@@ -72,7 +118,7 @@ def utf8 : Sx → List Sx
 def cfgOut (G : CFG Sx K) (ctr : Nat) : Json :=
   Json.mkObj [("cfg", cfgToJson G), ("ctr", .num ⟨ctr, 0⟩)]
 
-variable [DecidableEq K] in
+variable [DecidableEq K] [HasInv K] in
 /-- {"op":"transform","name":…,"cfg":…,"ctr":k,…} → {"cfg":…,"ctr":k'} — mirror models of cfg.py -/
 def opTransform (j : Json) : E Json := do
   let G : CFG Sx K ← cfgOfJson (← getField j "cfg")
@@ -105,6 +151,9 @@ def opTransform (j : Json) : E Json := do
   | "add_eos" => do
       let eos ← sxOfJson (← getField j "eos")
       pure (cfgOut { (addEOS G (genNt "<START>" (ctr + 1)) eos) with V := G.V ++ [eos] } (ctr + 1))
+  | "locally_normalize" => do
+      let Z ← fun1OfJson (K := K) (← getField j "Z")
+      pure (cfgOut (locallyNormalizeDrop (fun x => match HasInv.inv x with | some y => y | none => 0) G Z) ctr)
   | "sep_start_unconditional" => pure (cfgOut (sepStart G (genNt (pyStr G.S) (ctr + 1))) (ctr + 1))
   | _ => throw s!"unknown transformation {name}"
 
@@ -122,20 +171,44 @@ def opShape (j : Json) : E Json := do
     ("no_unary_cycle", b (noUnaryCycle G)), ("trim_useful", b (trimUseful G)),
     ("orig_start_generating", b (match og with | some o => decide (o.S ∈ generating o) | none => true))])
 
-def runOpK [DecidableEq K] (op : String) (j : Json) : E Json :=
+def runOpK [DecidableEq K] [HasInv K] (op : String) (j : Json) : E Json :=
   match op with
+  | "zn" => opZn (K := K) j
+  | "mask" => opMask (K := K) j
   | "shape" => opShape (K := K) j
   | "transform" => opTransform (K := K) j
   | "wn" => opWn (K := K) j
   | _ => throw s!"unknown op {op}"
 end
 
+instance {K : Type} [HasInv K] [Zero K] : HasInv (Expc K) := ⟨fun _ => none⟩
+
+/-- {"op":"lift_expectation","cfg":…,"n":N}: ZN of the Expectation-lifted grammar (model of `expected_length`) -/
+def opLiftExp (j : Json) : E Json := do
+  let G : CFG Sx Rat ← cfgOfJson (← getField j "cfg")
+  opZnG (K := Expc Rat) (liftExpectation G) j
+
+def opLiftExpF (j : Json) : E Json := do
+  let G : CFG Sx Float ← cfgOfJson (← getField j "cfg")
+  let G' : CFG Sx (Expc Float) := { S := G.S, V := G.V, rules := G.rules.map fun r =>
+    ⟨⟨r.w, r.w * Float.ofNat (numTerminals G.V r.body)⟩, r.head, r.body⟩ }
+  opZnG (K := Expc Float) G' j
+
+instance : BEq (Expc Float) := ⟨fun a b => a.p == b.p && a.r == b.r⟩
+
 def runOp (j : Json) : E Json := do
   let op ← getStr (← getField j "op")
   let R ← match j.getObjVal? "R" with | .ok (.str r) => pure r | _ => pure "Float"
   match R with
   | "Float" | "Real" => runOpK (K := Rat) op j
-  | "F64" => opWn (K := Float) j
+  | "F64" => (match op with
+      | "wn" => opWn (K := Float) j
+      | "zn" => opZn (K := Float) j
+      | "lift_expectation" => opLiftExpF j
+      | _ => throw s!"op {op} not available over F64")
+  | "Expectation" => (match op with
+      | "lift_expectation" => opLiftExp j
+      | _ => runOpK (K := Expc Rat) op j)
   | "Boolean" => runOpK (K := BoolW) op j
   | "MaxTimes" => runOpK (K := MaxT) op j
   | _ => throw s!"unknown semiring {R}"
